@@ -47,7 +47,7 @@ func c09Run(fs *Facts) {
 	sw, err := Load(c09Swamp)
 	if err != nil {
 		fs.Err("%v", err)
-		for _, n := range []string{"releasesGuardWhenImmediate", "createSingleFlight", "rechecksObjectUnderGuard"} {
+		for _, n := range []string{"releasesGuardWhenImmediate", "createSingleFlight", "rechecksObjectUnderGuard", "gatewayWritesRecheckObject", "shiftByKeysOneSession", "deleteTrustsHandlerResult"} {
 			fs.Tri(n, Unknown, c09Swamp)
 		}
 		fs.Enum("bodyShape", "unknown", c09Swamp)
@@ -57,6 +57,7 @@ func c09Run(fs *Facts) {
 	c09Create(fs, sw)
 	c09Recheck(fs, sw)
 	c09Shape(fs, sw)
+	c09DeletePaths(fs, sw)
 }
 
 func c09InSave(fs *Facts, f *File) {
@@ -140,31 +141,7 @@ func c09Recheck(fs *Facts, f *File) {
 	// repaired shape: every Increment body (and PatchFields) obtains object + guard from a helper that, after
 	// StartTreasureGuard, compares beaconKey.Get(key) with its object inside a retry loop and releases on mismatch
 	helper := f.Func("swamp", "lockCurrentTreasure")
-	helperOK := false
-	if helper != nil {
-		starts := f.CallsSuffix(helper, ".StartTreasureGuard")
-		rels := f.CallsSuffix(helper, ".ReleaseTreasureGuard")
-		loop, cmp := false, false
-		ast.Inspect(helper, func(x ast.Node) bool {
-			switch v := x.(type) {
-			case *ast.ForStmt:
-				loop = true
-			case *ast.BinaryExpr:
-				t := f.Str(v)
-				if len(starts) == 1 && v.Pos() > starts[0].End() && strings.Contains(t, "treasureObj") && (v.Op.String() == "==" || v.Op.String() == "!=") {
-					cmp = true
-				}
-			}
-			return true
-		})
-		gets := 0
-		for _, c := range f.Calls(helper, "s.beaconKey.Get") {
-			if len(starts) == 1 && c.Pos() > starts[0].End() {
-				gets++
-			}
-		}
-		helperOK = len(starts) == 1 && len(rels) >= 1 && loop && cmp && gets >= 1
-	}
+	helperOK := c09LockHelperOK(f, helper)
 	yes, no := 0, 0
 	where := c09Swamp
 	for _, n := range c09Increments {
@@ -208,13 +185,58 @@ func c09Recheck(fs *Facts, f *File) {
 			}
 		}
 	}
+	// the gateway bodies that write a record (Set, Uint32SlicePush, Uint32SliceDelete) must take object + guard from the
+	// exported forms of the helper, not from CreateTreasure / GetTreasure followed by StartTreasureGuard
+	if gw, err := Load(c09Gateway); err == nil {
+		exported := func(n string) bool {
+			fn := f.Func("swamp", n)
+			if fn == nil {
+				return false
+			}
+			if len(f.Calls(fn, "s.lockCurrentTreasure")) == 1 && len(fn.Body.List) == 1 {
+				return helperOK
+			}
+			return c09LockHelperOK(f, fn)
+		}
+		okLock, okExisting := exported("LockTreasure"), exported("LockExistingTreasure")
+		gwYes, gwNo, gwWhere := 0, 0, c09Gateway
+		defer func() {
+			switch {
+			case gwNo > 0:
+				fs.Tri("gatewayWritesRecheckObject", No, gwWhere)
+			case gwYes > 0:
+				fs.Tri("gatewayWritesRecheckObject", Yes, gwWhere)
+			default:
+				fs.Tri("gatewayWritesRecheckObject", Unknown, gwWhere)
+			}
+		}()
+		for _, n := range []string{"Set", "Uint32SlicePush", "Uint32SliceDelete"} {
+			fn := gw.Func("Gateway", n)
+			if fn == nil {
+				continue
+			}
+			direct := len(gw.CallsSuffix(fn, ".StartTreasureGuard")) > 0
+			viaLock := len(gw.CallsSuffix(fn, ".LockTreasure")) > 0 || strings.Contains(gw.Str(fn), ".LockTreasure\n") || strings.Contains(gw.Str(fn), ".LockTreasure")
+			viaExisting := strings.Contains(gw.Str(fn), ".LockExistingTreasure")
+			good := !direct && (viaLock || viaExisting) && (!viaLock || okLock) && (!viaExisting || okExisting)
+			if good {
+				gwYes++
+			} else {
+				gwNo++
+				gwWhere = c09Gateway + ":" + itoa(gw.Line(fn)) + " (" + n + ")"
+			}
+		}
+	} else {
+		fs.Tri("gatewayWritesRecheckObject", Unknown, c09Gateway)
+	}
 	switch {
 	case no == 0:
 		fs.Tri("rechecksObjectUnderGuard", Yes, c09Swamp+":"+itoa(f.Line(helper)))
 	case yes == 0:
 		fs.Tri("rechecksObjectUnderGuard", No, where)
 	default:
-		fs.Tri("rechecksObjectUnderGuard", Unknown, where)
+		// some bodies re-check, the one at `where` does not
+		fs.Tri("rechecksObjectUnderGuard", No, where)
 	}
 }
 
@@ -257,7 +279,10 @@ func c09BodyShape(f *File, fn *ast.FuncDecl) (string, int) {
 	viaHelper := map[*ast.CallExpr]*ast.Ident{}
 	ast.Inspect(fn, func(x ast.Node) bool {
 		if as, ok := x.(*ast.AssignStmt); ok && len(as.Rhs) == 1 && len(as.Lhs) >= 2 {
-			if c, ok := as.Rhs[0].(*ast.CallExpr); ok && f.Str(c.Fun) == "s.lockCurrentTreasure" {
+			if c, ok := as.Rhs[0].(*ast.CallExpr); ok && (f.Str(c.Fun) == "s.lockCurrentTreasure" || strings.HasSuffix(f.Str(c.Fun), ".LockTreasure") ||
+				strings.HasSuffix(f.Str(c.Fun), ".LockExistingTreasure") || f.Str(c.Fun) == "lock") {
+				// object + guard from the re-checking helper (its exported forms in the gateway; `lock` is the local
+				// variable that holds one of the two)
 				if id, ok := as.Lhs[0].(*ast.Ident); ok {
 					viaHelper[c] = id
 					starts = append(starts, c)
@@ -452,6 +477,10 @@ func c09Shape(fs *Facts, sw *File) {
 		w := it.path + ":" + itoa(line) + " (" + it.name + ")"
 		switch r {
 		case "unknown":
+			if fd := it.file.Func(it.recv, it.name); fd != nil && len(it.file.CallsSuffix(fd, ".StartTreasureGuard")) == 0 &&
+				len(it.file.Calls(fd, "s.deleteHandlerIf")) > 0 {
+				continue // no guard session of its own: everything it does with the record happens inside deleteHandlerIf
+			}
 			fs.Enum("bodyShape", "unknown", w)
 			return
 		case "readBeforeAcquire":
@@ -490,6 +519,20 @@ func c09SetTests(fs *Facts) {
 		return
 	}
 	guards := gw.CallsSuffix(set, ".StartTreasureGuard")
+	if len(guards) == 0 {
+		// object + guard from the re-checking helper: the call through which the guard is taken
+		ast.Inspect(set, func(x ast.Node) bool {
+			if as, ok := x.(*ast.AssignStmt); ok && len(as.Rhs) == 1 && len(as.Lhs) == 3 {
+				if c, ok := as.Rhs[0].(*ast.CallExpr); ok {
+					fn := gw.Str(c.Fun)
+					if fn == "lock" || strings.HasSuffix(fn, ".LockTreasure") || strings.HasSuffix(fn, ".LockExistingTreasure") {
+						guards = append(guards, c)
+					}
+				}
+			}
+			return true
+		})
+	}
 	if len(guards) != 1 {
 		fs.Tri(name, Unknown, c09Gateway+":"+itoa(gw.Line(set)))
 		return
@@ -549,4 +592,117 @@ func c09SetTests(fs *Facts) {
 	})
 	where := c09Gateway + ":" + itoa(gw.Line(guards[0]))
 	fs.Tri(name, TriOf(okOverwrite && okCreate), where)
+}
+
+// c09LockHelperOK: fn fetches an object, takes its guard and, inside a retry loop, compares the object with what
+// beaconKey.Get returns afterwards, releasing the guard on a mismatch.  Identifier names do not matter: the object is
+// whatever StartTreasureGuard is called on.
+func c09LockHelperOK(f *File, fn *ast.FuncDecl) bool {
+	if fn == nil {
+		return false
+	}
+	starts := f.CallsSuffix(fn, ".StartTreasureGuard")
+	rels := f.CallsSuffix(fn, ".ReleaseTreasureGuard")
+	if len(starts) != 1 || len(rels) < 1 {
+		return false
+	}
+	se, ok := starts[0].Fun.(*ast.SelectorExpr)
+	if !ok {
+		return false
+	}
+	objID, ok := se.X.(*ast.Ident)
+	if !ok {
+		return false
+	}
+	// identifiers that hold a beaconKey.Get result assigned after the guard
+	fromGet := map[string]bool{}
+	ast.Inspect(fn, func(x ast.Node) bool {
+		if as, ok := x.(*ast.AssignStmt); ok && as.Pos() > starts[0].End() && len(as.Lhs) == 1 && len(as.Rhs) == 1 && strings.Contains(f.Str(as.Rhs[0]), "beaconKey.Get(") {
+			if id, ok := as.Lhs[0].(*ast.Ident); ok {
+				fromGet[id.Name] = true
+			}
+		}
+		return true
+	})
+	loop, cmp := false, false
+	isObj := func(e ast.Expr) bool { id, ok := e.(*ast.Ident); return ok && id.Name == objID.Name }
+	isGet := func(e ast.Expr) bool {
+		if id, ok := e.(*ast.Ident); ok && fromGet[id.Name] {
+			return true
+		}
+		return strings.Contains(f.Str(e), "beaconKey.Get(")
+	}
+	ast.Inspect(fn, func(x ast.Node) bool {
+		switch v := x.(type) {
+		case *ast.ForStmt:
+			loop = true
+		case *ast.BinaryExpr:
+			if v.Pos() > starts[0].End() && (v.Op.String() == "==" || v.Op.String() == "!=") &&
+				((isObj(v.X) && isGet(v.Y)) || (isObj(v.Y) && isGet(v.X))) {
+				cmp = true
+			}
+		}
+		return true
+	})
+	return loop && cmp
+}
+
+// c09DeletePaths decides shiftByKeysOneSession and deleteTrustsHandlerResult.
+func c09DeletePaths(fs *Facts, f *File) {
+	// ShiftByKeys: no guard session of its own around a Clone; what it hands out is deleteHandlerIf's second result
+	if fn := f.Func("swamp", "CloneAndDeleteTreasuresByKeys"); fn == nil {
+		fs.Tri("shiftByKeysOneSession", Unknown, c09Swamp)
+	} else {
+		w := c09Swamp + ":" + itoa(f.Line(fn))
+		own := len(f.CallsSuffix(fn, ".StartTreasureGuard")) > 0
+		viaIf := len(f.Calls(fn, "s.deleteHandlerIf")) > 0
+		plain := len(f.Calls(fn, "s.deleteHandler")) > 0
+		switch {
+		case own && (plain || viaIf):
+			fs.Tri("shiftByKeysOneSession", No, w)
+		case !own && viaIf && !plain:
+			fs.Tri("shiftByKeysOneSession", Yes, w)
+		default:
+			fs.Tri("shiftByKeysOneSession", Unknown, w)
+		}
+	}
+	// DeleteTreasure: the result of deleteHandler(If) is looked at (compared with nil) and leads to a return
+	if fn := f.Func("swamp", "DeleteTreasure"); fn == nil {
+		fs.Tri("deleteTrustsHandlerResult", Unknown, c09Swamp)
+	} else {
+		w := c09Swamp + ":" + itoa(f.Line(fn))
+		calls := append(f.Calls(fn, "s.deleteHandler"), f.Calls(fn, "s.deleteHandlerIf")...)
+		if len(calls) != 1 {
+			fs.Tri("deleteTrustsHandlerResult", Unknown, w)
+			return
+		}
+		res := No
+		ast.Inspect(fn, func(x ast.Node) bool {
+			ifs, ok := x.(*ast.IfStmt)
+			if !ok {
+				return true
+			}
+			// `if s.deleteHandler(...) == nil { return err }` or `if d := …; d == nil { return … }`
+			inCond := ifs.Cond.Pos() <= calls[0].Pos() && calls[0].End() <= ifs.Cond.End()
+			inInit := ifs.Init != nil && ifs.Init.Pos() <= calls[0].Pos() && calls[0].End() <= ifs.Init.End()
+			if (inCond || inInit) && strings.Contains(f.Str(ifs.Cond), "nil") {
+				if n := len(ifs.Body.List); n > 0 {
+					if _, isRet := ifs.Body.List[n-1].(*ast.ReturnStmt); isRet {
+						res = Yes
+					}
+				}
+			}
+			return true
+		})
+		if res == No {
+			// assigned to a variable that is tested later?
+			ast.Inspect(fn, func(x ast.Node) bool {
+				if as, ok := x.(*ast.AssignStmt); ok && len(as.Rhs) == 1 && as.Rhs[0] == ast.Expr(calls[0]) {
+					res = Unknown
+				}
+				return true
+			})
+		}
+		fs.Tri("deleteTrustsHandlerResult", res, w)
+	}
 }
